@@ -3,6 +3,8 @@
 package backend
 
 import (
+	"sync/atomic"
+
 	proto "github.com/kubewharf/kubebrain-client/api/v2rpc"
 	"github.com/kubewharf/kubebrain/pkg/backend/tso"
 	"github.com/kubewharf/kubebrain/pkg/zzmodel"
@@ -149,6 +151,51 @@ func VerifC05PublishHeld() {
 	w.b.watchCache.Unlock()
 	<-done
 	zzverif.StopExploring()
+	zzverif.WaitIdle()
+	if werr != nil {
+		zzverif.Cover("refused")
+		return
+	}
+	got, closed := vDrainEvents(ch)
+	zzverif.Assert(!closed, "watch of a consumer that keeps up stays open")
+	w.checkEvents(got, 0, s, "/r/")
+	zzverif.Cover("done")
+}
+
+// VerifC05BroadcastHeld: the other window of the hand-over, forced without the scheduler: the
+// batch of one write is held between the event cache and the broadcast (a forwarding goroutine
+// between the sequencer's output channel and the fan-out, released by the harness); a watch
+// registers completely meanwhile — it is subscribed, finds the event in the cache and replays it —
+// and then the broadcast of the same batch arrives. The watch is refused or delivers exactly the
+// reference sequence (the event once).
+func VerifC05BroadcastHeld() {
+	var hold int32
+	release := make(chan struct{}, 1)
+	vStreamIn = func(src chan []*proto.Event) chan []*proto.Event {
+		out := make(chan []*proto.Event, cap(src))
+		go func() {
+			for evs := range src {
+				if atomic.LoadInt32(&hold) == 1 {
+					<-release
+				}
+				out <- evs
+			}
+		}()
+		return out
+	}
+	w := vNewWorldTSO(1, func(t tso.TSO) tso.TSO { return t })
+	vStreamIn = nil
+	w.vWriteSeq(zzverif.Param("before", 1))
+	zzverif.WaitIdle()
+	s := zzverif.U64("S")
+	zzverif.Assume(zzverif.And(s > 0, s <= w.dealt+2))
+	atomic.StoreInt32(&hold, 1)
+	w.vWriteSeq(1)
+	zzverif.WaitIdle() // the event is in the cache, its batch is held before the broadcast
+	ch, werr := w.b.Watch(vCtx(), "/r/", s)
+	zzverif.WaitIdle()
+	atomic.StoreInt32(&hold, 0)
+	release <- struct{}{}
 	zzverif.WaitIdle()
 	if werr != nil {
 		zzverif.Cover("refused")
